@@ -2271,7 +2271,11 @@ impl BytecodeVM {
                         &prop_key,
                     )?
                 } else {
-                    obj_ref.borrow().has_own_property(&prop_key)
+                    // HasProperty: own properties (including array elements and other
+                    // exotic keys) and everything inherited through the prototype chain
+                    let obj_borrowed = obj_ref.borrow();
+                    obj_borrowed.get_property_descriptor(&prop_key).is_some()
+                        || obj_borrowed.get_property(&prop_key).is_some()
                 };
 
                 self.set_reg(dst, JsValue::Boolean(has_prop));
